@@ -1,8 +1,8 @@
 #!/bin/bash
-# intake_seed2.sh <ID>: confirm the round-2 seeded changes of a property (/tmp/seed2_out/<ID>/{3,4}) and store them
+# intake_seed2.sh <ID>: confirm the round-2 seeded changes of a property (/tmp/seed${SEEDROUND:-2}_out/<ID>/{3,4}) and store them
 ID=$1
-for n in 3 4; do
-  SD=/tmp/seed2_out/$ID/$n
+for n in ${SEEDNS:-3 4}; do
+  SD=/tmp/seed${SEEDROUND:-2}_out/$ID/$n
   [ -f $SD/patch.diff ] || { echo "$ID $n: missing"; continue; }
   line=$(/verif/tools/confirm_seed.sh $SD ${ID}_$n | tail -1)
   echo "$line"
